@@ -192,7 +192,8 @@ def pushdown_dnf(
                     predicate_tables = exp.column_table_names(predicate, name)
                     if not all(join_index.get(t, -1) < this_index for t in predicate_tables):
                         continue
-                node.on(predicate, copy=False)
+                # A copy: the predicate stays in its original place too (DNF blocks can't be removed)
+                node.on(predicate.copy(), copy=False)
             elif isinstance(node, exp.Select):
                 inner_predicate = replace_aliases(node, predicate)
                 if find_in_scope(inner_predicate, exp.AggFunc):
